@@ -230,7 +230,7 @@ theorem serializer_failure_contained (env : Env) (hh : ∀ d k, env.destFails d 
   simp only [World.buildLog]
   rw [Fields.get?_set_ne _ _ _ _ (by decide), Fields.get?_set_ne _ _ _ _ (by decide),
     Fields.get?_set_ne _ _ _ _ (by decide), Fields.get?_set_ne _ _ _ _ (by decide)]
-  simp [tracebackFields, Fields.update, Fields.get?]
+  simp [tracebackFields, Fields.update, Fields.get?, Fields.set]
 
 /-- **per_kind_serializer**: start messages use the start serializer, successful ends the success
 serializer, failed ends only the built-in (identity / constant) fields. -/
